@@ -17,6 +17,8 @@ for c in m["checks"]:
 print(" ".join(t))
 PY
 )
+# the Gen/*.v tables are regenerated from /repo's current source first (translators; never trust the committed copies)
+python3 tools/pregen_all.py || true
 ./mk $TARGETS
 ( cd harness && RUSTFLAGS="--cfg mech_lang_mech_verif" CARGO_TARGET_DIR=/verif/.cache/target timeout 3000 cargo build --offline --quiet )
 for d in harness20; do
